@@ -1,5 +1,5 @@
 (* Stages B-D assembled: for programs over top-level variables - declarations, assignments, expression statements,
-   conditionals and condition loops nested to any depth, any scalar expressions over the variables declared so far -
+   conditionals and condition loops (with break and continue) nested to any depth, any scalar expressions over the variables declared so far -
    compiling with the compiler model and running the result on the VM model gives what the reference semantics
    gives, whenever the program ends (its source-level run [run_stmts] returns with some fuel). *)
 From Coq Require Import List ZArith NArith Bool Arith Lia.
@@ -18,8 +18,9 @@ Definition agree_on (x : sval + serr) (o : Sem.outcome) (r : res) : Prop :=
   end.
 Definition agree (o : Sem.outcome) (r : res) : Prop := exists x, agree_on x o r.
 
-Definition top_result (r : (list sval * sval) + serr) : sval + serr :=
-  match r with inl (_, v) => inl v | inr x => inr x end.
+(* what a whole program amounts to; break / continue cannot reach the top level of a well-formed program (VarProgFacts.no_escape_stmts) *)
+Definition top_result (r : (list sval * sval) + stop) : sval + serr :=
+  match r with inl (_, v) => inl v | inr (StErr x) => inr x | inr _ => inr EType end.
 
 Lemma nth_of_nth_error (A : Type) (l : list A) i k d : nth_error l i = Some k -> nth i l d = k.
 Proof. revert i; induction l as [|x l IH]; intros [|i] H; cbn in *; try discriminate; [congruence|auto]. Qed.
@@ -30,7 +31,7 @@ Section Names.
   Hypothesis names_nonempty : Forall (fun nm => nm <> []) names.
 
   Theorem run_var_program l tabs ng n r :
-    l <> [] -> wf_stmts true 0 l = true -> ndecls l <= ng -> max_need l <= MAXSTACK ->
+    l <> [] -> wf_stmts true false 0 l = true -> ndecls l <= ng -> max_need l <= MAXSTACK ->
     run_stmts n [] l VNil = Some r ->
     exists k s', forall f,
       VM.run (k + S f) (Code main_id main_id false 0 (fst (pcode 0 0 l)) (snd (pcode 0 0 l)) [] [] []) tabs ng [] =
@@ -45,12 +46,13 @@ Section Names.
                   globals := [] ++ repeat VGoNil (ng - length (@nil value)); trace := [] |}).
     assert (Hinv : vm_inv [] (ndecls l + 0) s0).
     { split; [cbn [length Nat.add globals s0 app]; rewrite repeat_length; cbn; lia|]. intros i Hi. cbn in Hi. lia. }
+    pose proof (no_escape_stmts n l [] true VNil r Hwf Hr) as Hno.
     destruct (vm_prog tabs c 0 [0] [] [] true n l [] 0 s0 0 [] [] VNil r Hne Hinv Hwf) as [k [s' Hrun]]; try exact Hr.
     - cbn [code_instr c app]. rewrite app_nil_r. reflexivity.
     - intros i kk Hi. cbn [code_consts c Nat.add]. apply nth_of_nth_error. exact Hi.
     - cbn [Nat.add]. exact Hn.
     - exists k, s'. intros f. unfold VM.run. fold s0. fold c.
-      destruct r as [[rho v]|x]; cbn [top_result].
+      destruct r as [[rho v]|[x|rho|rho]]; cbn [top_result no_ctl] in *; try contradiction.
       + destruct Hrun as [_ Hrun]. specialize (Hrun (S f)). cbn [length] in Hrun.
         rewrite Hrun. cbn [length Nat.add]. cbn [exec].
         replace (nth_error (code_instr c) (length (fst (pcode 0 0 l)))) with (@None N);
@@ -59,7 +61,7 @@ Section Names.
   Qed.
 
   Theorem var_programs_end_to_end : forall l n r,
-    l <> [] -> wf_stmts true 0 l = true -> ndecls l <= length names -> max_need l <= MAXSTACK ->
+    l <> [] -> wf_stmts true false 0 l = true -> ndecls l <= length names -> max_need l <= MAXSTACK ->
     run_stmts n [] l VNil = Some r ->
     exists c tabs, compile_program (S (max_height l)) [] (embed_stmts names 0 l) = inr (c, tabs) /\
     forall ng, ndecls l <= ng -> exists k, forall f fs, max_height l < fs -> n < fs ->
@@ -72,7 +74,8 @@ Section Names.
     exists k. intros f fs Hfs Hnfs. split.
     - destruct fs as [|fs]; [lia|].
       rewrite (VarSemProofs.sem_var_program names names_nodup names_nonempty l n fs r Hwf Hd ltac:(lia) ltac:(lia) Hr).
-      destruct r as [[rho v]|x]; reflexivity.
+      pose proof (no_escape_stmts n l [] true VNil r Hwf Hr) as Hno.
+      destruct r as [[rho v]|[x|rho|rho]]; cbn [no_ctl] in Hno; try contradiction; reflexivity.
     - rewrite Hrun. destruct (top_result r); eexists; reflexivity.
   Qed.
 End Names.
